@@ -283,7 +283,7 @@ class RawVoltageBackend(object):
         header_dict['BLOCSIZE'] = self.block_size
         header_dict['SCANLEN'] = self.obs_length
         header_dict['TBIN'] = self.tbin
-        if self.is_antenna_array:
+        if self.is_antenna_array or 'NANTS' in header_dict:
             header_dict['NANTS'] = self.num_antennas
         header_dict['OBSNCHAN'] = self.num_chans * self.num_antennas
         header_dict['OBSBW'] = self.chan_bw * self.num_chans * 1e-6
